@@ -16,7 +16,7 @@ impl Property for C20 {
         "C20"
     }
     fn rule(&self) -> &'static str {
-        "profile `layout`: a generated program - valid, or (1 in 4) broken by one grammar-breaking edit - printed twice from one token sequence: canonical (single blanks, LF, no comments) and re-laid-out with every freedom the statement lists, all after the header line (blank space widened / tabs / CR / removed where adjacency is safe, trailing # comments, inserted blank and comment-only lines, literals rewritten in decimal / 0x / 0X either digit case / 0b / 0B / leading-zero octal). Oracle (metamorphic, no reference semantics): same Ok/Err from parsing, same from binding, and equal items from equally scripted runs (dynamic, and static when possible) except `line`, which must move exactly to where the printer put that row. Non-trivial: the two texts differ in >= 3 kinds of layout change including a radix change or a removed blank; distinct by both texts."
+        "profile `layout`: a generated program - valid, or (1 in 4) broken by one grammar-breaking edit - printed twice from one token sequence: canonical (single blanks, LF, no comments) and re-laid-out with every freedom the statement lists, all after the header line (blank space widened / tabs / CR / removed where adjacency is safe - between a symbol and anything, and between a number and a directly following X / Z / C entry, which lex as the same two tokens (`0X`, `12z`; not C after a hex literal) -, a CR before the LF of all or of some lines, trailing # comments, inserted blank and comment-only lines, literals rewritten in decimal / 0x / 0X either digit case / 0b / 0B / leading-zero octal). Oracle (metamorphic, no reference semantics): same Ok/Err from parsing, same from binding, and equal items from equally scripted runs (dynamic, and static when possible) except `line`, which must move exactly to where the printer put that row. Non-trivial: the two texts differ in >= 3 kinds of layout change including a radix change or a removed blank; distinct by both texts."
     }
     fn cases(&self, tier: Tier) -> u64 {
         match tier {
@@ -28,7 +28,7 @@ impl Property for C20 {
         [400, 400, 60]
     }
     fn required_classes(&self) -> Vec<&'static str> {
-        vec!["reradixed", "removed-blank", "tabs-or-cr", "trailing-comment", "inserted-lines", "broken-program", "valid-program", "rows-compared", "static-compared"]
+        vec!["reradixed", "removed-blank", "tabs-or-cr", "trailing-comment", "inserted-lines", "broken-program", "valid-program", "rows-compared", "static-compared", "number-joined-to-X/Z/C", "mixed-line-ends"]
     }
     fn run(&self, s: &Streams) -> CaseOut {
         let mut out = CaseOut::new();
@@ -66,6 +66,8 @@ impl Property for C20 {
         out.class_if(st.tabs_or_cr > 0, "tabs-or-cr");
         out.class_if(st.trailing_comments > 0, "trailing-comment");
         out.class_if(st.inserted_lines > 0, "inserted-lines");
+        out.class_if(st.num_xzc_sites > 0, "number-joined-to-X/Z/C");
+        out.class_if(st.mixed_eol, "mixed-line-ends");
         out.nontrivial = st.kinds() >= 3 && (st.reradixed > 0 || st.removed_blanks > 0);
 
         let p1 = parse(&r1.text);
